@@ -22,13 +22,14 @@ type C14Case struct {
 	Plant  string // "" | syntax | type-error | mixed-packages | dup-set | missing-ctor
 	Prior  bool   // an output file already exists
 	Output string // "" (default kessoku.go) or custom name
+	Invoke string `json:",omitempty"` // "" = in the package directory without pattern | root-all = from the module root with ./... and -o app/<out>
 }
 
 func genC14(rt *rapid.T, c *Ctx) C14Case {
 	allow := wireGated(c, "C14")
 	k := C14Case{Prior: rapid.Bool().Draw(rt, "prior")}
 	if rapid.IntRange(0, 99).Draw(rt, "planted") < 35 {
-		k.Plant = rapid.SampledFrom([]string{"syntax", "type-error", "mixed-packages", "dup-set", "missing-ctor", "type-error-nonwire", "syntax-nonwire"}).Draw(rt, "plant")
+		k.Plant = rapid.SampledFrom([]string{"syntax", "type-error", "mixed-packages", "dup-set", "missing-ctor", "type-error-nonwire", "syntax-nonwire", "mixed-packages-same-name"}).Draw(rt, "plant")
 	}
 	if k.Plant != "missing-ctor" {
 		delete(allow, "bind-foreign-ctor")
@@ -37,6 +38,9 @@ func genC14(rt *rapid.T, c *Ctx) C14Case {
 	k.W = spec.GenWire(rt, o)
 	if rapid.IntRange(0, 9).Draw(rt, "customout") < 3 {
 		k.Output = "migrated_di.go"
+	}
+	if k.Plant == "" && rapid.IntRange(0, 3).Draw(rt, "invoke") == 3 {
+		k.Invoke = "root-all"
 	}
 	return k
 }
@@ -63,6 +67,13 @@ func checkC14(c *Ctx, k C14Case) *Verdict {
 		out = k.Output
 		extra = append(extra, "-o", out)
 	}
+	if k.Invoke == "root-all" {
+		// all packages of the module, most of them without any wire configuration; the output
+		// path is given relative to the module root
+		extra = []string{"-o", filepath.Join(mat.UserPkg, out), "./..."}
+		p.migrateDir = p.B.Root
+	}
+	v.Features["invoke:"+k.Invoke] = k.Invoke != ""
 	outPath := filepath.Join(p.B.AppDir, out)
 	priorContent := []byte("package " + mat.UserPkg + "\n\n// previous output\n")
 	if k.Prior {
@@ -104,6 +115,12 @@ func checkC14(c *Ctx, k C14Case) *Verdict {
 			}
 			_ = os.WriteFile(filepath.Join(p.B.AppDir, name), []byte("//go:build wireinject\n\npackage "+mat.UserPkg+"\n\nimport \"github.com/google/wire\"\n\ntype BadIface interface{ BadM() }\n\ntype BadImpl struct{}\n\nfunc (*BadImpl) BadM() {}\n\nfunc ProvideBadImpl() *BadImpl { return &BadImpl{} }\n\nvar BadSet = wire.NewSet(ProvideBadImpl, wire.Bind(new(BadIface), new(*BadImpl)))\n"), 0o644)
 		}
+	case "mixed-packages-same-name":
+		// a second package with wire configuration that has the SAME package name (two commands, two "app")
+		other := filepath.Join(p.B.Root, "other", mat.UserPkg)
+		_ = os.MkdirAll(other, 0o755)
+		_ = os.WriteFile(filepath.Join(other, "wire.go"), []byte("//go:build wireinject\n\npackage "+mat.UserPkg+"\n\nimport \"github.com/google/wire\"\n\ntype X struct{}\n\nfunc NewX() *X { return &X{} }\n\nvar OtherSet = wire.NewSet(NewX)\n"), 0o644)
+		extra = append(extra, "./", "../other/"+mat.UserPkg)
 	case "mixed-packages":
 		other := filepath.Join(p.B.Root, "other")
 		_ = os.MkdirAll(other, 0o755)
@@ -177,7 +194,11 @@ func checkC14(c *Ctx, k C14Case) *Verdict {
 		// same input again: the previous output is not part of the input (left in place it
 		// would redeclare every migrated set next to the wire files)
 		_ = os.Remove(outPath)
-		again := pipe.Run(pipe.Cmd{Dir: p.B.AppDir, Env: c.goEnv(fmt.Sprintf("GOMAXPROCS=%d", 1+7*i)), Args: append([]string{c.Snap.CLI, "migrate"}, extra...)})
+		againDir := p.B.AppDir
+		if p.migrateDir != "" {
+			againDir = p.migrateDir
+		}
+		again := pipe.Run(pipe.Cmd{Dir: againDir, Env: c.goEnv(fmt.Sprintf("GOMAXPROCS=%d", 1+7*i)), Args: append([]string{c.Snap.CLI, "migrate"}, extra...)})
 		v.Evals++
 		got, _ := os.ReadFile(outPath)
 		if again.Exit != 0 || !bytes.Equal(got, src) {
